@@ -1,25 +1,33 @@
 """Shared explore/search/replay for the properties decided on the engine model (C01 C04 C06 C07 C10 C17)."""
 from harness import engine_explore as ee
+from harness import user_explore as ue
 
 
-def make(props, n_prim_q=140, n_op_q=25, n_intr_q=0, n_prim_t=4000, n_op_t=800, n_intr_t=0, user_level=None):
+def make(props, n_prim_q=140, n_op_q=25, n_intr_q=0, n_prim_t=4000, n_op_t=800, n_intr_t=0,
+         user_q=(60, 10, 0), user_t=(1500, 300, 0), extra=None):
     props = set(props)
 
     def explore(ctx):
         q = ctx.tier == "quick"
         res = ee.explore_engine(ctx, props, n_prim_q if q else n_prim_t, n_op_q if q else n_op_t,
                                 n_intr_q if q else n_intr_t)
-        if user_level is not None and not res["violations"] and not res["disagreements"]:
-            extra = user_level(ctx)
-            res["violations"] += extra.get("violations", [])
-            res["disagreements"] += extra.get("disagreements", [])
-            for k, v in extra.get("coverage", {}).items():
+        if not res["violations"] and not res["disagreements"]:
+            u = ue.explore_user(ctx, props, *(user_q if q else user_t))
+            res["violations"] += u["violations"]
+            res["disagreements"] += u["disagreements"]
+            for k, v in u["coverage"].items():
                 res["coverage"]["user_" + k] = v
+            res["coverage"]["traces_validated_against_impl"] += u["coverage"]["engine_traces_validated"]
+        if extra is not None and not res["violations"]:
+            x = extra(ctx)
+            res["violations"] += x.get("violations", [])
+            res["disagreements"] += x.get("disagreements", [])
+            res["coverage"].update(x.get("coverage", {}))
         return res
 
     def search(ctx, broken):
         """Something no longer checks: look harder for a concrete failing schedule (opcode-level preemption first)."""
-        class C:  # a shallow copy of ctx with another seed stream
+        class C:
             pass
         found = []
         for k in range(1, 5):
@@ -30,11 +38,20 @@ def make(props, n_prim_q=140, n_op_q=25, n_intr_q=0, n_prim_t=4000, n_op_t=800, 
             res = ee.explore_engine(c, props, 40, 700 if ctx.tier == "quick" else 4000, n_intr_q, p_template=0.6,
                                     op_switch=(0.05, 0.2, 0.4))
             found += res["violations"]
+            if not found:
+                found += ue.explore_user(c, props, 150, 150, user_q[2] * 3)["violations"]
+            if not found and extra is not None:
+                found += extra(c).get("violations", [])
             if found:
                 break
         return found
 
     def replay(ctx, payload):
+        w = payload.get("witness", payload)
+        if "user_case" in w:
+            return ue.replay_user(ctx, w, props)
+        if "replay_fn" in w and extra is not None:
+            return extra(ctx, replay=w)
         return ee.replay_engine(ctx, payload, props)
 
     return explore, search, replay
